@@ -6,9 +6,9 @@ import SelfiesVerif.Proofs.DecoderInv
 
 namespace SV
 
-def NonArom (m : Mol) : Prop := ∀ a ∈ m.atoms, a.isAromatic = false
+def NonAromW (m : Mol) : Prop := ∀ a ∈ m.atoms, a.isAromatic = false
 
-theorem processAtomSelfiesNoCache_nonarom {sym bi a} (h : processAtomSelfiesNoCache sym = some (bi, a)) :
+theorem processAtomSelfiesNoCache_nonaromW {sym bi a} (h : processAtomSelfiesNoCache sym = some (bi, a)) :
     a.isAromatic = false := by
   unfold processAtomSelfiesNoCache at h
   simp only [smilesToBond] at h
@@ -16,7 +16,7 @@ theorem processAtomSelfiesNoCache_nonarom {sym bi a} (h : processAtomSelfiesNoCa
   all_goals (try cases h)
   all_goals rfl
 
-theorem processAtomSymbol_nonarom {T sym bi a} (h : processAtomSymbol T sym = some (bi, a)) :
+theorem processAtomSymbol_nonaromW {T sym bi a} (h : processAtomSymbol T sym = some (bi, a)) :
     a.isAromatic = false := by
   unfold processAtomSymbol at h
   split at h
@@ -25,17 +25,17 @@ theorem processAtomSymbol_nonarom {T sym bi a} (h : processAtomSymbol T sym = so
     split at h
     · cases h
     · cases h
-      exact processAtomSelfiesNoCache_nonarom heq
+      exact processAtomSelfiesNoCache_nonaromW heq
 
-theorem NonArom.addAtom {m : Mol} (h : NonArom m) {a : Atom} (ha : a.isAromatic = false) (r attr) :
-    NonArom (m.addAtom a r attr).1 := by
+theorem NonAromW.addAtom {m : Mol} (h : NonAromW m) {a : Atom} (ha : a.isAromatic = false) (r attr) :
+    NonAromW (m.addAtom a r attr).1 := by
   intro x hx
   simp only [Mol.addAtom, List.mem_append, List.mem_singleton] at hx
   rcases hx with hx | rfl
   · exact h x hx
   · exact ha
 
-theorem addBond_atoms {m m' : Mol} {s d o st attr} (h : m.addBond s d o st attr = .ok m') :
+theorem addBond_atomsW {m m' : Mol} {s d o st attr} (h : m.addBond s d o st attr = .ok m') :
     m'.atoms = m.atoms := by
   unfold Mol.addBond at h
   bind_at h with ⟨_, _, h⟩
@@ -44,15 +44,15 @@ theorem addBond_atoms {m m' : Mol} {s d o st attr} (h : m.addBond s d o st attr 
   bind_at h with ⟨_, _, h⟩
   cases h; rfl
 
-theorem NonArom.of_fin {mol : Mol} {rings : List RingReq} {r : DState × Nat}
-    (hI : NonArom mol) (h : r.1.mol = mol ∧ r.1.rings = rings) : NonArom r.1.mol := by
+theorem NonAromW.of_fin {mol : Mol} {rings : List RingReq} {r : DState × Nat}
+    (hI : NonAromW mol) (h : r.1.mol = mol ∧ r.1.rings = rings) : NonAromW r.1.mol := by
   rw [h.1]; exact hI
 
 theorem deriveLoop_nonarom (T : Table) (compat : Bool) : ∀ (fuel depth : Nat) (st : DState)
     (maxDerive : Option Nat) (nDerived state : Nat) (prev : Option Nat)
     (attrStack : Option (List Attribution)) (attrIndex : Nat) (r : DState × Nat),
     deriveLoop T compat fuel depth st maxDerive nDerived state prev attrStack attrIndex = .ok r →
-    NonArom st.mol → NonArom r.1.mol := by
+    NonAromW st.mol → NonAromW r.1.mol := by
   intro fuel
   induction fuel with
   | zero => intro _ _ _ _ _ _ _ _ _ h; simp [deriveLoop] at h
@@ -61,10 +61,10 @@ theorem deriveLoop_nonarom (T : Table) (compat : Bool) : ∀ (fuel depth : Nat) 
     unfold deriveLoop at h
     dsimp only at h
     split at h
-    · exact NonArom.of_fin hI (fin_ok h)
+    · exact NonAromW.of_fin hI (fin_ok h)
     · bind_at h with ⟨nx, hnx, h⟩
       split at h
-      · exact NonArom.of_fin hI (fin_ok h)
+      · exact NonAromW.of_fin hI (fin_ok h)
       · rename_i index symbol stream'
         split at h
         · -- branch
@@ -96,18 +96,18 @@ theorem deriveLoop_nonarom (T : Table) (compat : Bool) : ∀ (fuel depth : Nat) 
                 · cases h
                 · bind_at h with ⟨_, _, h⟩
                   split at h
-                  · exact NonArom.of_fin hI (fin_ok h)
+                  · exact NonAromW.of_fin hI (fin_ok h)
                   · exact ih _ _ _ _ _ _ _ _ _ h hI
           · split at h
             · -- epsilon
               split at h
               · exact ih _ _ _ _ _ _ _ _ _ h hI
-              · exact NonArom.of_fin hI (fin_ok h)
+              · exact NonAromW.of_fin hI (fin_ok h)
             · -- atom
               split at h
               · cases h
               · rename_i bondOrder stereo atom hpa
-                have hna := processAtomSymbol_nonarom hpa
+                have hna := processAtomSymbol_nonaromW hpa
                 generalize hnas : nextAtomState bondOrder (Atom.bondingCapacity T atom).toNat state = nas at h
                 obtain ⟨bo, ns⟩ := nas
                 dsimp only at h
@@ -115,26 +115,26 @@ theorem deriveLoop_nonarom (T : Table) (compat : Bool) : ∀ (fuel depth : Nat) 
                 · split at h
                   · have hI1 := hI.addAtom hna true (attrPush attrStack (index + attrIndex) symbol)
                     split at h
-                    · exact NonArom.of_fin hI1 (fin_ok h)
+                    · exact NonAromW.of_fin hI1 (fin_ok h)
                     · exact ih _ _ _ _ _ _ _ _ _ h hI1
                   · split at h
-                    · exact NonArom.of_fin hI (fin_ok h)
+                    · exact NonAromW.of_fin hI (fin_ok h)
                     · exact ih _ _ _ _ _ _ _ _ _ h hI
                 · have hI1 := hI.addAtom hna false (attrPush attrStack (index + attrIndex) symbol)
                   split at h
                   · cases h
                   · bind_at h with ⟨mol1, hab, h⟩
-                    have hI2 : NonArom mol1 := by
+                    have hI2 : NonAromW mol1 := by
                       intro a ha
-                      rw [addBond_atoms hab] at ha
+                      rw [addBond_atomsW hab] at ha
                       exact hI1 a ha
                     split at h
-                    · exact NonArom.of_fin hI2 (fin_ok h)
+                    · exact NonAromW.of_fin hI2 (fin_ok h)
                     · exact ih _ _ _ _ _ _ _ _ _ h hI2
 
 theorem deriveFragments_nonarom (T : Table) (compat attrib : Bool) :
     ∀ (frags : List Str) (m : Mol) (rings : List RingReq) (ai : Nat) (r : Mol × List RingReq),
-    deriveFragments T compat attrib frags m rings ai = .ok r → NonArom m → NonArom r.1 := by
+    deriveFragments T compat attrib frags m rings ai = .ok r → NonAromW m → NonAromW r.1 := by
   intro frags
   induction frags with
   | nil =>
@@ -148,7 +148,7 @@ theorem deriveFragments_nonarom (T : Table) (compat attrib : Bool) :
     exact ih _ _ _ _ h (deriveLoop_nonarom T compat _ _ _ _ _ _ _ _ _ _ h1 hI)
 
 /-- every atom of a decoded graph is non-aromatic -/
-theorem decodeGraph_nonarom {T : Table} {s : Str} {compat attrib : Bool} {g : Mol}
+theorem decodeGraph_nonaromW {T : Table} {s : Str} {compat attrib : Bool} {g : Mol}
     (h : decodeGraph T s compat attrib = .ok g) : ∀ a ∈ g.atoms, a.isAromatic = false := by
   unfold decodeGraph at h
   bind_at h with ⟨⟨m, rings⟩, h1, h⟩
